@@ -1,10 +1,56 @@
 package main
 
-import "golang.org/x/tools/go/ssa"
+import (
+	"time"
+
+	"golang.org/x/tools/go/ssa"
+)
 
 func osIntrinsic(fn *ssa.Function) intrinsicFn { return nil }
 
 func (in *Interp) regexMatchSym(re any, s Value) Value {
 	unsup("regexp match on symbolic string")
 	return nil
+}
+
+// minimal accepted input length per time layout (contract of package time, checked by selftest)
+var timeLayoutMinLen = map[string]int{
+	time.RFC3339: 20,
+	"2006-01-02": 10,
+}
+
+func init() {
+	reg("time.Parse", func(in *Interp, fn *ssa.Function, a []Value, c *frame, s ssa.Instruction) (Value, bool) {
+		layout, ok := a[0].(string)
+		if !ok {
+			unsup("time.Parse with symbolic layout")
+		}
+		tt := fn.Signature.Results().At(0).Type()
+		if v, ok := a[1].(string); ok {
+			if _, err := time.Parse(layout, v); err != nil {
+				return Tuple{zero(tt), in.mkErrVal(err.Error(), nil)}, true
+			}
+			unsup("time.Parse succeeded on %q: time values are not modelled", v)
+		}
+		val := strArgVal(in, a[1])
+		if v, ok := val.(string); ok {
+			if _, err := time.Parse(layout, v); err != nil {
+				return Tuple{zero(tt), in.mkErrVal(err.Error(), nil)}, true
+			}
+			unsup("time.Parse succeeded on %q: time values are not modelled", v)
+		}
+		if at := singleFmtInt(val); at != nil {
+			// a bare integer never parses as one of the modelled layouts ('-' / 'T' separators required)
+			if _, ok := timeLayoutMinLen[layout]; ok {
+				return Tuple{zero(tt), in.mkErrVal("parsing time: integer text", nil)}, true
+			}
+		}
+		n, okLen := strLenConcrete(val)
+		min, okLayout := timeLayoutMinLen[layout]
+		if okLen && okLayout && n < min {
+			return Tuple{zero(tt), in.mkErrVal("parsing time: input too short", nil)}, true
+		}
+		unsup("time.Parse(%q) on symbolic string of length %d", layout, n)
+		return nil, false
+	})
 }
